@@ -102,24 +102,27 @@ Proof.
   rewrite IH. reflexivity.
 Qed.
 
-(* ---- a good configuration: hand-over, fan-out, a second flow incorporated ----
+(* ---- a good configuration: fan-out, hand-over with two response connections,
+        a second flow incorporated on the response side ----------------------
 
    flow 1 ("A"): request  stream -> a(1); a -hit-> b(2); a -hit-> g(3); a -miss-> stream;
-                          b -hit-> flow 2 at start
-                 response stream -> t(4); t -hit-> stream; g -""-> t; g -""-> u(5); u -hit-> stream
-   flow 2 ("B"): request  stream -> c(6); c -hit-> stream          response stream -> stream *)
+                          b -hit-> stream
+                 response stream -> t(4); t -hit-> stream; g -""-> t; g -""-> u(5);
+                          u -hit-> flow 2 at start
+   flow 2 ("B"): request  stream -> stream      response stream -> c(6); c -hit-> stream *)
 Definition wg_config : config :=
   CF [FC 1 true [PD 1 false 1 [1]; PD 2 false 1 [1]; PD 3 false 2 [3; 4]; PD 4 false 1 [1]; PD 5 false 1 [1]]
          [CN ep_stream_start (ep_p 1 0); CN (ep_p 1 1) (ep_p 2 0); CN (ep_p 1 1) (ep_p 3 0);
-          CN (ep_p 1 2) ep_stream_end; CN (ep_p 2 1) (ep_flow_start 2)]
+          CN (ep_p 1 2) ep_stream_end; CN (ep_p 2 1) ep_stream_end]
          [CN ep_stream_start (ep_p 4 0); CN (ep_p 4 1) ep_stream_end; CN (ep_p 3 0) (ep_p 4 0);
-          CN (ep_p 3 0) (ep_p 5 0); CN (ep_p 5 1) ep_stream_end];
+          CN (ep_p 3 0) (ep_p 5 0); CN (ep_p 5 1) (ep_flow_start 2)];
       FC 2 true [PD 6 false 1 [1]]
-         [CN ep_stream_start (ep_p 6 0); CN (ep_p 6 1) ep_stream_end]
-         [CN ep_stream_start ep_stream_end]]
+         [CN ep_stream_start ep_stream_end]
+         [CN ep_stream_start (ep_p 6 0); CN (ep_p 6 1) ep_stream_end]]
      false.
 
 Definition wg_flows : list flow :=
   match load wg_config with Accept fs => fs | _ => [] end.
+Definition wg_flow1 : flow := hd wa_flow wg_flows.
 Definition wg_sel : selection :=
   {| s_start := []; s_user := flows_named wg_flows [1]; s_end := [] |}.
